@@ -44,7 +44,8 @@ def replay(rec, ctx):
     pl = EC.plasma(rec, vel={s: to_plasma([c * vb / 10.0 for c in v]) for s, v in rec.get("vel", {}).items()})
     efac = {s: f[0] / f[1] for s, f in rec.get("efac", {}).items()}
     m = rec["model"]
-    nb = rec["nb"] * EC.NU
+    nu = EC.nu(rec)
+    nb = rec["nb"] * nu
 
     class Att(BeamAttenuator):
         def density(self, x, y, z):
@@ -86,7 +87,7 @@ def replay(rec, ctx):
     samples = [float(x) for x in out.samples]
     integral = sum(samples) * (c03.HI - c03.LO) / c03.BINS
     num, den = rec["beam_total"]
-    want = (float(Fraction(num, den)) if den else 0.0) * EC.NU * EC.NU * EC.UNIT / (4 * math.pi)
+    want = (float(Fraction(num, den)) if den else 0.0) * nu * nu * EC.UNIT / (4 * math.pi)
     if not core.close(integral, want, rtol=1e-9, atol=1e-300):
         kind = "nonzero-where-zero-expected" if want == 0 else ("zero-where-emission-expected" if integral == 0 else "total-differs")
         bad(kind, f"integrated emission {integral!r}, spec {num}/{den} x scale / 4pi = {want!r}")
@@ -95,14 +96,14 @@ def replay(rec, ctx):
         z2n, zn = rec["zeff"]
         for tag, args in [(x[1], x[2]) for x in calls if x[0] == "eval"]:
             if tag.startswith("bcx"):
-                exp = (ENERGY * efac.get("c6", 1.0), float(rec["temp"]["c6"]), rec["nion"] * EC.NU, z2n / zn, 5.0)
+                exp = (ENERGY * efac.get("c6", 1.0), float(rec["temp"]["c6"]), rec["nion"] * nu, z2n / zn, 5.0)
                 if not core.close(list(args), list(exp), rtol=1e-9):
                     bad("cx-coefficient-evaluated-at-wrong-arguments", f"{tag}{args} vs (E_int, T_rec, n_ion, Zeff, |B|) = {exp}")
                     break
             elif tag.startswith(("bmp:", "bes:")):
                 s = tag.split(":")[1]
                 zi = rec["species"][s][1]
-                exp_n = z2n * EC.NU / zi if zi else math.inf
+                exp_n = z2n * nu / zi if zi else math.inf
                 exp = (ENERGY * efac.get(s, 1.0), exp_n, float(rec["temp"][s]))
                 ok = core.close(args[0], exp[0], rtol=1e-9) and core.close(args[2], exp[2], rtol=1e-9) and \
                     (args[1] == exp[1] if math.isinf(exp_n) else core.close(args[1], exp[1], rtol=1e-9))
